@@ -182,6 +182,22 @@ Theorem c04_mat_mul_binary64_error : forall bm tol, errs_within bm 0 tol mat_mul
   Rabs (nth i (map (fe_fl rnd64 (env_sov s o (Vec3 0 0 0))) mat_mul_fe) 0 -
         nth i (let m := mat_mul s o in [aa m; ab m; ac m; ba m; bb m; bc m; ca m; cb m; cc m]) 0) <= Q2R tol.
 Proof. exact mat_mul_binary64_error. Qed.
+(** Matrix.from_angle in binary64.  The arithmetic of the nine entries runs on libm's sin / cos values [inp]; if these are
+    within [d] of the real sin / cos of the real angles, every entry of the float matrix is within [tol] of the exact rotation
+    [from_angle p y r] and at most 1 + tol in absolute value - for every [d], [tol] the decidable test accepts for today's
+    trees (obligations: 1e-15 for d = 0, 3e-14 for d = 5e-15; the check measures d on sampled angles with 50-digit
+    arithmetic).  libm's accuracy is the visible hypothesis; the trees are tied to the generated [from_angle]. *)
+Theorem c04_from_angle_binary64_error : forall d tol, errs_within_in 1 d tol from_angle_fe = true ->
+  forall p y r inp, (forall n, Rabs (inp n - from_angle_inputs p y r n) <= Q2R d) ->
+  forall i, (i < 9)%nat ->
+  let fl := nth i (map (fe_fl rnd64 inp) from_angle_fe) 0 in
+  let ex := nth i (let m := from_angle p y r in [aa m; ab m; ac m; ba m; bb m; bc m; ca m; cb m; cc m]) 0 in
+  Rabs (fl - ex) <= Q2R tol /\ Rabs fl <= 1 + Q2R tol.
+Proof. exact from_angle_binary64_error. Qed.
+Theorem c04_from_angle_trees_tied : forall p y r,
+  map (fe_exact (from_angle_inputs p y r)) from_angle_fe =
+  (let m := from_angle p y r in [aa m; ab m; ac m; ba m; bb m; bc m; ca m; cb m; cc m]).
+Proof. exact from_angle_fe_tied. Qed.
 Theorem c04_rotation_entries_within_1 : forall m, rotation m -> mat_within 1 m.
 Proof. exact rotation_within_1. Qed.
 
